@@ -1,4 +1,5 @@
 import Driver.Codec
+import LsmModel.Table.Meta
 /-
   Driver.TableDrv — pure requests about ONE table file and its parts (instruments `ia tables|frames|filters`,
   properties C12 / C10 / C11).  Every answer is computed by the definitions of
@@ -201,12 +202,49 @@ def fnHashEnc (a : List (String × String)) : String :=
       " plan=" ++ ",".intercalate (gets.map (fun h => showPlan (HashIndex.pointReadPlan idx h)))
   | _, _, _, _ => "bad-request hashenc"
 
+/-! ### META block (LsmModel.Table.Meta)
+    metaparse items=<entries>   ->  ok id=.. created=.. dbc=.. ibc=.. kmin=<hex> kmax=<hex> smin=.. smax=.. fs=.. ic=.. tc=.. wtc=.. wr=.. dc=.. ixc=..  |  none
+    metaitems dbc= fbc= ibc= dc= ixc= crate=<hex> created= ratio=<hex> fs= lvl= ic= kmax=<hex> kmin=<hex> kc= rid= rii= smax= smin= id= tc= uds= wtc= wr=
+                                ->  items=<entries> sorted=<0|1> block=<hex>      (block = Codec.encodeBlock 1 items) -/
+def fnMetaParse (a : List (String × String)) : String :=
+  match (arg a "items").bind parseEntries with
+  | none => "bad-request metaparse"
+  | some items =>
+    match Meta.parseMeta items with
+    | none => "none"
+    | some p =>
+      "ok id=" ++ toString p.id ++ " created=" ++ toString p.createdAt ++ " dbc=" ++ toString p.dataBlockCount ++
+      " ibc=" ++ toString p.indexBlockCount ++ " kmin=" ++ hexOfBytes p.keyMin ++ " kmax=" ++ hexOfBytes p.keyMax ++
+      " smin=" ++ toString p.seqnoMin ++ " smax=" ++ toString p.seqnoMax ++ " fs=" ++ toString p.fileSize ++
+      " ic=" ++ toString p.itemCount ++ " tc=" ++ toString p.tombstoneCount ++ " wtc=" ++ toString p.weakTombstoneCount ++
+      " wr=" ++ toString p.weakReclaimable ++ " dc=" ++ toString p.dataCompression ++ " ixc=" ++ toString p.indexCompression
+
+def fnMetaItems (a : List (String × String)) : String :=
+  let n := fun k => (arg a k).bind (·.toNat?)
+  let h := fun k => (arg a k).bind bytesOfHex
+  match n "dbc", n "fbc", n "ibc", n "dc", n "ixc", h "crate", n "created", h "ratio", n "fs", n "lvl", n "ic", h "kmax" with
+  | some dbc, some fbc, some ibc, some dc, some ixc, some crate, some created, some ratio, some fs, some lvl, some ic, some kmax =>
+    match h "kmin", n "kc", n "rid", n "rii", n "smax", n "smin", n "id", n "tc", n "uds", n "wtc", n "wr" with
+    | some kmin, some kc, some rid, some rii, some smax, some smin, some id, some tc, some uds, some wtc, some wr =>
+      let m : Meta.TableMeta :=
+        { dataBlockCount := dbc, filterBlockCount := fbc, indexBlockCount := ibc, dataCompression := dc, indexCompression := ixc,
+          crateVersion := crate, createdAt := created, hashRatio := ratio, fileSize := fs, initialLevel := lvl, itemCount := ic,
+          keyMax := kmax, keyMin := kmin, keyCount := kc, riData := rid, riIndex := rii, seqnoMax := smax, seqnoMin := smin,
+          tableId := id, tombstoneCount := tc, userDataSize := uds, weakTombstoneCount := wtc, weakReclaimable := wr }
+      let items := Meta.metaItems m
+      "items=" ++ showEntries items ++ " sorted=" ++ (if Meta.ascending (items.map (·.key)) then "1" else "0") ++
+      " block=" ++ hexOfBytes (Meta.encodeMetaBlock m)
+    | _, _, _, _, _, _, _, _, _, _, _ => "bad-request metaitems-2"
+  | _, _, _, _, _, _, _, _, _, _, _, _ => "bad-request metaitems"
+
 /-- dispatch of the requests of this file; `none` = not one of ours -/
 def handleTableCmd (cmd : String) (a : List (String × String)) : Option String :=
   match cmd with
   | "wtable" => some (fnWTable a)
   | "encblock" => some (fnEncBlock a)
   | "decblock" => some (fnDecBlock a)
+  | "metaparse" => some (fnMetaParse a)
+  | "metaitems" => some (fnMetaItems a)
   | "frame" => some (fnFrame a)
   | "unframe" => some (fnUnframe a)
   | "unblob" => some (fnUnblob a)
